@@ -224,7 +224,8 @@ ExecIdentity == \A e \in Execs : Held(e) = xbal[e] + dep[e]
 
 \* supply changes only through mint / burn / issue / grant, by exactly the amount
 SupplyRule == [][LET d == Supply' - Supply IN
-                 IF res'[2] = "err" THEN d = 0
+                 IF res'[1] = "Setup" THEN TRUE        \* a new ledger (trace validation)
+                 ELSE IF res'[2] = "err" THEN d = 0
                  ELSE IF res'[1] \in {"Mint", "GenesisInit", "GenesisInitExec", "ExecDepositFrozen", "ExecIssueCoins"} THEN d = res'[3]
                  ELSE IF res'[1] = "Burn" THEN d = -res'[3]
                  ELSE d = 0]_vars
@@ -232,7 +233,7 @@ SupplyRule == [][LET d == Supply' - Supply IN
 \* the executor identity is disturbed only by the raw building blocks
 DepRule == [][\A e \in Execs : dep'[e] # dep[e] =>
                  /\ res'[2] = "ok"
-                 /\ res'[1] \in {"ExecDeposit", "ExecWithdraw", "ExecIssueCoins"}]_vars
+                 /\ res'[1] \in {"Setup", "ExecDeposit", "ExecWithdraw", "ExecIssueCoins"}]_vars
 
 \* an operation that answers an error changes nothing
 ErrNoChange == [][res'[2] = "err" => UNCHANGED <<bal, xbal, sb, sf, dep, minted>>]_vars
